@@ -1,7 +1,10 @@
 (* C17 -- diffing git revisions examines exactly what git reports; the caller's directory is restored.
    Statements only; the proofs live in Sys/GitRefsProofs.v.  [src_facts] is generated from /repo on every run. *)
 From Coq Require Import List NArith Bool.
-From NB Require Import Base.Json Sys.GitRefs Sys.GitRefsProofs Gen.GitRefsFacts.
+From NB Require Import Base.Json.
+From NB Require Import Sys.GitRefs.
+From NB Require Import Sys.GitRefsProofs.
+From NB Require Import Gen.GitRefsFacts.
 Import ListNotations.
 
 (* -- valid for every source: what holds for the code as it is, selected by the generated facts -- *)
@@ -43,7 +46,8 @@ Print Assumptions c17_saved_dot_drifts.
    (A) the pinned source (pushd saves os.curdir; the all-paths branch of resolve_diff_args sets base = None):
        the property is REFUTED on the model, with witnesses replayed on the implementation by the check.
    (B) after the fixes notes/C17-fix-1.diff and notes/C17-fix-2.diff: the full property.
-   To switch: comment (A), uncomment (B), and delete the entries of known_findings.d/C17.json. *)
+   To switch: comment (A) out, uncomment (B) (strip the 'B> ' prefixes), and delete the corresponding entries of
+   known_findings.d/C17.json (pushd-saves-dot..., cli-all-paths...). *)
 
 (* (A) *)
 Theorem c17_cwd_restored_refuted : subdir_refuted src_facts.
@@ -58,14 +62,14 @@ Theorem c17_cli_all_paths_refuted : forall is_gitref x y z ps,
 Proof. exact (fun g x y z ps => cli_allpaths_none_refuted src_facts g x y z ps eq_refl). Qed.
 Print Assumptions c17_cli_all_paths_refuted.
 
-(* (B)
-Theorem c17_full : full_property src_facts.
-Proof. exact (full_of_good src_facts (conj eq_refl eq_refl)). Qed.
-Print Assumptions c17_full.
-
-Theorem c17_cli_full : forall is_gitref args, cli_hyps is_gitref args ->
-  main_mode src_facts is_gitref args = spec_mode is_gitref args.
-Proof. exact (fun g args => cli_allpaths_head src_facts g args eq_refl). Qed.
-Print Assumptions c17_cli_full.
+(* (B)  -- each line carries the prefix 'B> ' so that no tool mistakes it for live text; strip it when switching
+B> Theorem c17_full : full_property src_facts.
+B> Proof. exact (full_of_good src_facts (conj eq_refl eq_refl)). Qed.
+B> Print Assumptions c17_full.
+B> 
+B> Theorem c17_cli_full : forall is_gitref args, cli_hyps is_gitref args ->
+B>   main_mode src_facts is_gitref args = spec_mode is_gitref args.
+B> Proof. exact (fun g args => cli_allpaths_head src_facts g args eq_refl). Qed.
+B> Print Assumptions c17_cli_full.
 *)
 (* ==== END SOURCE-STATE BLOCK ============================================================================ *)
